@@ -9,21 +9,41 @@ import vlib
 
 MODULE = os.path.join(vlib.SPEC, "props", "C26.tla")
 SIMCFG = os.path.join(vlib.SPEC, "props", "C26sim.cfg")
+# resource use (the machine is shared): overridable through the environment
+WORKERS = int(os.environ.get("VERIF_TLC_WORKERS", "2"))
+JOBS = int(os.environ.get("VERIF_JOBS", "4"))
+
+
+def enumerate_cases(prop, plan, timeout):
+    """model checking mode: every state a history, maximal ones printed as CASE lines"""
+    res = vlib.tlc(MODULE, env={"PLAN": plan}, workers=WORKERS, xmx="3g", timeout=timeout)
+    vlib.tlc_ok(res, MODULE)
+    return res.cases(), res
+
+
+def simulate_cases(prop, plan, n, seed, depth, timeout):
+    """simulation mode: one JSON file per random history"""
+    outdir = os.path.join(vlib.WORK, prop, "sim")
+    os.makedirs(outdir, exist_ok=True)
+    res = vlib.tlc(MODULE, cfg=SIMCFG, simulate=n, depth=depth, seed=seed, env={"PLAN": plan, "OUTDIR": outdir},
+                   xmx="3g", timeout=timeout)
+    vlib.tlc_ok(res, MODULE)
+    return vlib.load_case_files(outdir), res
+
 
 PLAN = {"quick": {"plan": "quick", "sim": "simquick", "nsim": 150, "depth": 32, "tlc_timeout": 200},
-        "thorough": {"plan": "thorough", "sim": "simthorough", "nsim": 2000, "depth": 62, "tlc_timeout": 800}}
+        "thorough": {"plan": "thorough", "sim": "simthorough", "nsim": 1000, "depth": 62, "tlc_timeout": 800}}
 
 
 def run(prop, tier, seed):
     rep = vlib.Report(prop, tier, seed, "model_checking")
     wd = vlib.workdir(prop)
     plan = PLAN[tier]
-    cases, res = vlib.gen_enumerate(prop, MODULE, env={"PLAN": plan["plan"]}, workers=8, timeout=plan["tlc_timeout"])
+    cases, res = enumerate_cases(prop, plan["plan"], plan["tlc_timeout"])
     if not cases:
         raise vlib.ToolError("no cases from TLC")
     n_enum = len(cases)
-    sims, sres = vlib.gen_simulate(prop, MODULE, plan["nsim"], seed, env={"PLAN": plan["sim"]}, depth=plan["depth"],
-                                   cfg=SIMCFG, timeout=plan["tlc_timeout"])
+    sims, sres = simulate_cases(prop, plan["sim"], plan["nsim"], seed, plan["depth"], plan["tlc_timeout"])
     cases += sims
     states = res.distinct + sres.generated
     transitions = res.generated + sres.generated
@@ -35,7 +55,7 @@ def run(prop, tier, seed):
         ids.add(c["id"])
 
     inmodel = [c for c in cases if c.get("inmodel")]
-    obs, hwall = vlib.run_harness(inmodel, wd, jobs=14)
+    obs, hwall = vlib.run_harness(inmodel, wd, jobs=JOBS)
     not_compiled = 0
     agree = 0
     for c, o in zip(inmodel, obs):
@@ -68,7 +88,7 @@ def run(prop, tier, seed):
     rep.coverage = {
         "states": states, "transitions": transitions, "traces_validated_against_impl": len(inmodel),
         "evaluations": len(inmodel), "distinct_nontrivial": len(texts),
-        "rule": "model checking mode: every history over the family alphabet (flatR 18, flatM 33, flatF 55, nest 27 operations; values {0,1}) "
+        "rule": "model checking mode: every history over the family alphabet (flatR 14, flatM 33, flatF 55, nest 27 operations; values {0,1}) "
                 "up to the job's length for each job of Plans[%s] in spec/props/C26.tla, one program per maximal history (length bound reached or first failing operation), "
                 "every prefix is validated by the state print after each operation; simulation: random histories (seed %d) over "
                 "a, b: array<int>, n, m: array<array<int>>, values 0..2; non-trivial = in-model history with >= 2 operations, "
